@@ -137,4 +137,18 @@ theorem calls_csCompactToLevel_expected : calls_csCompactToLevel = ["compact", "
 negation `cs_crash_atomic_asWritten_fails` no longer describes the code. -/
 theorem csCompactPublishesBeforeLog_expected : csCompactPublishesBeforeLog = true := by rfl
 
+/-! ### the full-compaction group builder (model: OG.C03.FullPlan) -/
+
+theorem src_fullCompacted_expected : src_fullCompacted = "{ f.lock.RLock() defer f.lock.RUnlock() if len(f.files) <= 1 { return true } sameLeve := true lv, seq := f.files[0].LevelAndSequence() for i := 1; i < len(f.files); i++ { if sameLeve { level, curSeq := f.files[i].LevelAndSequence() sameLeve = lv == level && curSeq == seq } else { break } } return sameLeve }" := by rfl
+
+theorem src_groupBuilderAdd_expected : src_groupBuilderAdd = "{ lv, _ := f.LevelAndSequence() if b.parquetLevel > 0 && lv < b.parquetLevel { b.group.reset() return false } b.group.UpdateLevel(lv + 1) b.group.Add(f.Path()) return true }" := by rfl
+
+theorem src_groupBuilderAddLowLevelMode_expected : src_groupBuilderAddLowLevelMode = "{ b.group.toLevel = b.level lv, _ := f.LevelAndSequence() if lv < b.level { b.group.Add(f.Path()) return true } if b.group.Len() > 0 { b.SwitchGroup() b.group = &CompactGroup{ name: b.group.name, dropping: b.group.dropping, } } return true }" := by rfl
+
+theorem src_groupBuilderSwitchGroup_expected : src_groupBuilderSwitchGroup = "{ if b.group == nil || b.group.Len() == 0 { return } b.groups = append(b.groups, b.group) }" := by rfl
+
+theorem src_buildFullCompactPlan_expected : src_buildFullCompactPlan = "{ if !m.CompactionEnabled() { return nil } builder := &CompactGroupBuilder{ limit: int(n), parquetLevel: config.TSSPToParquetLevel(), lowLevelMode: toLevel > 0, level: toLevel, } defer builder.Release() m.mu.RLock() defer m.mu.RUnlock() mmsTables := m.ImmTable.getFiles(m, true) for k, v := range mmsTables { if m.isClosed() || m.isCompMergeStopped() { return nil } if v.hasUnloadFile() { ReloadSpecifiedFiles(m, k, v) } if m.scheduler.IsRunning(k) || atomic.LoadInt64(&v.closing) > 0 || v.fullCompacted() || v.hasUnloadFile() { continue } builder.Init(k, &v.closing, v.Len()) for _, f := range v.files { if m.isClosed() || m.isCompMergeStopped() { return nil } if f.(*tsspFile).ref == 0 { panic(\"file closed\") } name := f.Path() if tmpFileSuffix == name[len(name)-len(tmpFileSuffix):] { continue } if !builder.AddFile(f) { return nil } } builder.SwitchGroup() if builder.Limited() { break } } return builder.groups }" := by rfl
+
+theorem src_FullCompact_expected : src_FullCompact = "{ n := int64(maxFullCompactor) - atomic.LoadInt64(&fullCompactingCount) if n < 1 { return nil } if preLevel := config.PreFullCompactLevel(); preLevel > 0 { plans := m.buildFullCompactPlan(n, preLevel) if len(plans) > 0 { m.scheduler.ExecuteBatch(m.buildCompactTasks(plans, true, shid), m.stopCompMerge) return nil } } plans := m.buildFullCompactPlan(n, 0) if len(plans) > 0 { m.scheduler.ExecuteBatch(m.buildCompactTasks(plans, true, shid), m.stopCompMerge) } return nil }" := by rfl
+
 end OG.C03.Facts
